@@ -278,11 +278,17 @@ SEQ_ANY_TAGGED = T("SEQ", comps=[("id", INT, "req", None), ("v", ANY.tagged(("E"
 def _mk_seq_any(**s):
     from vfw import x690ref as R
 
-    inner = R.der(INT, s["i1"]) if s["w"] == 0 else R.der(OCTS, bytes([s["o0"], s["o1"]][: s["n"]]))
+    if s["w"] == 0:
+        inner = R.der(INT, s["i1"])
+    elif s["w"] == 1:
+        inner = R.der(OCTS, bytes([s["o0"], s["o1"]][: s["n"]]))
+    else:
+        # an indefinite-length TLV holding another indefinite-length TLV: 30 80 30 80 02 01 <i1> 00 00 04 <n> .. 00 00
+        inner = [0x30, 0x80, 0x30, 0x80, 0x02, 0x01, s["i1"], 0x00, 0x00, 0x04, s["n"]] + [s["o0"], s["o1"]][: s["n"]] + [0x00, 0x00]
     return {"id": s["i0"], "v": bytes(inner)}
 
 
-P_SEQ_ANY = {"i0": SMALL, "i1": SMALL, "w": I(0, 1), "n": I(0, 2), "o0": BYTE, "o1": BYTE}
+P_SEQ_ANY = {"i0": SMALL, "i1": I(0, 127), "w": I(0, 2), "n": I(0, 2), "o0": BYTE, "o1": BYTE}
 
 
 def _mk_seq_any_tagged(**s):
@@ -314,8 +320,9 @@ P_SET_CHX = {"w": I(0, 3), "i0": SMALL, "f0": B, "c0": I(0, 0x7FF), "o0": BYTE, 
 # several long-form (>= 31) tags of the same class inside one value, same number in primitive and constructed form
 SEQ_HITAGS = T("SEQ", comps=[("a", INT.tagged(("I", "C", 40)), "req", None), ("b", INT.tagged(("I", "C", 1000)), "opt", None),
                              ("c", OCTS.tagged(("E", "C", 31)), "opt", None), ("d", BOOL.tagged(("I", "A", 31)), "opt", None),
-                             ("e", T("SEQ", comps=[("x", INT.tagged(("I", "C", 41)), "req", None)]).tagged(("I", "C", 41)), "opt", None)],
-               name="SEQ{a [40]I INT,b [1000]I INT?,c [31]E OCTS?,d [A31]I BOOL?,e [41]I SEQ{x [41]I INT}?}")
+                             ("e", T("SEQ", comps=[("x", INT.tagged(("I", "C", 41)), "req", None)]).tagged(("I", "C", 41)), "opt", None),
+                             ("f", INT.tagged(("E", "C", 40)), "opt", None)],
+               name="SEQ{a [40]I INT,b [1000]I INT?,c [31]E OCTS?,d [A31]I BOOL?,e [41]I SEQ{x [41]I INT}?,f [40]E INT?}")
 SEQ_HITAGS_E = T("SEQ", comps=[("a", INT.tagged(("E", "C", 31)), "req", None), ("b", INT.tagged(("E", "C", 32)), "req", None),
                                ("c", OCTS.tagged(("E", "C", 200)), "opt", None)], name="SEQ{a [31]E INT,b [32]E INT,c [200]E OCTS?}")
 
@@ -330,6 +337,8 @@ def _mk_seq_hitags(**s):
         av["d"] = s["f0"]
     if s["he"]:
         av["e"] = {"x": s["i1"]}
+    if s["hf"]:
+        av["f"] = s["i1"]
     return av
 
 
@@ -340,7 +349,7 @@ def _mk_seq_hitags_e(**s):
     return av
 
 
-P_SEQ_HITAGS = {"i0": SMALL, "i1": I(0, 1), "hb": B, "hc": B, "hd": B, "he": B, "f0": B, "o0": BYTE, "n": I(0, 1)}
+P_SEQ_HITAGS = {"i0": SMALL, "i1": I(0, 1), "hb": B, "hc": B, "hd": B, "he": B, "hf": B, "f0": B, "o0": BYTE, "n": I(0, 1)}
 
 # a wide heterogeneous record (more than 10 members: schemaless decoding generates field-0 .. field-11) and OPTIONAL NULL members
 SEQ_WIDE = T("SEQ", comps=[("f%d" % i_, (INT if i_ % 2 == 0 else OCTS), "req", None) for i_ in range(12)], name="SEQ{f0 INT,f1 OCTS,...,f11 OCTS}")
@@ -453,10 +462,12 @@ def catalogue(tier="quick"):
     out = list(L) + list(C)
     out += tagged_entries(basis, TAG_STACKS_Q, "qstack")
     out += tagged_entries([e for e in C if e.id in ("seq", "seqof_int", "set", "setof_octs")], TAG_STACKS_Q[:2] + TAG_STACKS_Q[3:], "qstack")
+    out += tagged_entries([e for e in L if e.id in ("int", "octs")], [TAG_STACKS_T[6]], "qstack")  # IMPLICIT over EXPLICIT
     if tier == "thorough":
         rest = [e for e in L if e.id not in [b.id for b in basis]]
         out += tagged_entries(rest, TAG_STACKS_Q[:3], "tstack")
-        out += tagged_entries(basis, TAG_STACKS_T[4:], "tstack")
+        out += tagged_entries([e for e in basis if e.id not in ("int", "octs")], TAG_STACKS_T[4:], "tstack")
+        out += tagged_entries([e for e in basis if e.id in ("int", "octs")], [TAG_STACKS_T[4], TAG_STACKS_T[5], TAG_STACKS_T[7]], "tstack")
         out += tagged_entries([e for e in C if e.id in ("seq", "set", "seqof_int", "setof_int", "seq_nest", "set_mixed")], TAG_STACKS_T[4:], "tstack")
     else:
         out = [e for e in out if e.tier == "quick"]
